@@ -111,6 +111,49 @@ impl fmt::Display for FieldType {
     }
 }
 
+///
+/// maximum nesting of brackets accepted in a query, a mutation or a deletion
+///
+pub const MAX_NESTING_DEPTH: usize = 128;
+
+///
+/// The parsers are recursive: a text nested deep enough would overflow the stack of the calling thread
+/// and abort the process. Texts nested deeper than MAX_NESTING_DEPTH are refused before they are parsed.
+/// Brackets inside string literals are not counted.
+///
+pub fn check_nesting_depth(text: &str) -> Result<(), Error> {
+    let mut depth: usize = 0;
+    let mut in_string = false;
+    let mut escaped = false;
+    for c in text.chars() {
+        if in_string {
+            if escaped {
+                escaped = false;
+            } else if c == '\\' {
+                escaped = true;
+            } else if c == '"' {
+                in_string = false;
+            }
+            continue;
+        }
+        match c {
+            '"' => in_string = true,
+            '{' | '[' | '(' => {
+                depth += 1;
+                if depth > MAX_NESTING_DEPTH {
+                    return Err(Error::Parser(format!(
+                        "nesting deeper than {} levels",
+                        MAX_NESTING_DEPTH
+                    )));
+                }
+            }
+            '}' | ']' | ')' => depth = depth.saturating_sub(1),
+            _ => {}
+        }
+    }
+    Ok(())
+}
+
 #[derive(Error, Debug)]
 pub enum Error {
     #[error(transparent)]
